@@ -61,3 +61,31 @@ Definition enc (d : decision) : Z :=
   | Classical b p a => 1000 + 100 * Z.b2z b + 10 * peri_n p + anom_n a
   end.
 Definition decisions (l : list args) : list (Z * Z) := map (fun g => (enc (c_decide g), enc (py_decide g))) l.
+
+(* ---- round 2: reb_orbit_from_particle_err and the Pal routines at binary64 ---- *)
+From RV Require Import C11.OrbitInv.
+Open Scope float_scope.
+Record tables2 := mkTables2 {
+  t_acos : list (float * float); t_acosh : list (float * float); t_cbrt : list (float * float);
+  t_atan2 : list (float * float * float)
+}.
+Definition libm2_of (t : tables2) : libm2 float :=
+  mkLibm2 (lookup (t_acos t)) (lookup (t_acosh t)) (lookup (t_cbrt t)) (lookup2 (t_atan2 t)).
+
+Definition mkp (l : list float) : part float :=
+  match l with [m; x; y; z; vx; vy; vz] => mkPart m x y z vx vy vz | _ => mkPart nan nan nan nan nan nan nan end.
+
+Definition ofp (t : tables) (t2 : tables2) (G t0 : float) (p prim : list float) : list float :=
+  match orbit_from_particle_err FNum (libm_of t) (libm2_of t2) TINY G t0 (mkp p) (mkp prim) with
+  | inl c => [f_ofZ c]
+  | inr o => [0; o_d o; o_v o; o_h o; o_P o; o_n o; o_a o; o_e o; o_inc o; o_Omega o; o_omega o; o_pomega o; o_f o; o_M o;
+              o_l o; o_theta o; o_T o; o_rhill o; o_pal_h o; o_pal_k o; o_pal_ix o; o_pal_iy o;
+              o_hx o; o_hy o; o_hz o; o_ex o; o_ey o; o_ez o]
+  end.
+Definition skp (t : tables) (t2 : tables2) (h k lambda : float) : list float :=
+  let '(p, q) := solve_kepler_pal FNum (libm_of t) (libm2_of t2) h k lambda in [p; q].
+Definition fpal (t : tables) (t2 : tables2) (G : float) (prim : list float) (m a lambda k h ix iy : float) : list float :=
+  let p := from_pal FNum (libm_of t) (libm2_of t2) G (mkp prim) m a lambda k h ix iy in
+  [pm p; px p; py p; pz p; pvx p; pvy p; pvz p].
+Definition tpal (t : tables) (t2 : tables2) (G : float) (p prim : list float) : list float :=
+  particle_to_pal FNum (libm2_of t2) G (mkp p) (mkp prim).
